@@ -837,7 +837,8 @@ func (n *getTagEval) Eval(env Env) (types.Value, error) {
 
 	var zero types.EntityUID
 	if eid == zero {
-		return zeroValue(), fmt.Errorf("cannot access tag `%s` of %w", n.rhs, errUnspecifiedEntity)
+		// The tag is an expression which has not been evaluated at this point, so the message cannot name it.
+		return zeroValue(), fmt.Errorf("cannot access tag of %w", errUnspecifiedEntity)
 	}
 
 	t, err := evalString(n.rhs, env)
